@@ -37,6 +37,8 @@ DOMAINS = [
     ["0", "1/2", "1"],
 ]
 
+BIG_DOMAINS = [[1, 2, 3, 4, 5, 6], [0, 1, 2, 3, 4, 5], [1, 2, 3, 4, 5, 6], [0, 1, 2, 3, 4, 5, 6]]
+
 PROBS = ["1/2", "1/3", "1/4", "2/3", "3/4", "1/5", "1/10", "9/10"]
 SMALL = [-3, -2, -1, 1, 2, 3]
 COEFFS = ["1/2", "2", "-1", "1/3", "3", "-1/2", "3/2", "1/4", "-2"]
@@ -112,7 +114,7 @@ def prob_vector(c, k):
     if c.syms and c.b(0.4):
         s = c.pick(c.syms)
         return [["div", ["sym", s], "2"], ["div", ["sym", s], "2"]][: k - 1] if k == 3 else [["div", ["sym", s], "3"]] * (k - 1)
-    table = {3: [["1/2", "1/4"], ["1/3", "1/3"], ["1/5", "3/5"], ["1/10", "1/2"]],
+    table = {3: [["1/2", "1/4"], ["1/3", "1/3"], ["1/5", "3/5"], ["1/10", "1/2"], ["3/10", "3/10"], ["1/5", "1/10"], ["4/5", "19/100"]],
              4: [["1/4", "1/4", "1/4"], ["1/2", "1/4", "1/8"], ["1/10", "2/10", "3/10"]]}
     return [L.num(x) for x in c.pick(table[k])]
 
@@ -336,9 +338,17 @@ def condition(c, depth=0):
         return atom(c)
     if r <= 6:
         return ["not", condition(c, depth + 1)]
-    if r <= 8:
-        return ["and", condition(c, depth + 1), condition(c, depth + 1)]
-    return ["or", condition(c, depth + 1), condition(c, depth + 1)]
+    first = condition(c, depth + 1)
+    if first[0] == "cmp" and first[1][0] == "var" and c.b(0.4):
+        # second operand over the same variable (overlapping or complementary sides)
+        f = first[1][1]
+        ints = [x for x in c.fin[f] if x.denominator == 1] or [F(0)]
+        second = ["cmp", L.var(f), c.pick(["==", "<", ">", "<=", ">="]), L.num(c.pick(ints))]
+        if c.b(0.3):
+            second = ["not", second]
+    else:
+        second = condition(c, depth + 1)
+    return ["and" if r <= 7 else "or", first, second]
 
 
 def simple_stmt(c):
@@ -503,8 +513,9 @@ def programs(draw, profile="discrete", uninit_ok=True, min_body=1, max_body=4):
         c.syms = SYM_NAMES[: c.integer(1, 2)]
     nf = c.integer(0 if knobs["guard"] < 1 else 1, 3)
     nn = c.integer(0 if nf else 1, 3)
+    big = c.b(0.08)  # "dice" programs: larger domains (products of value-set sizes beyond the typer's bound of 25)
     for f in FINITE_NAMES[:nf]:
-        c.fin[f] = [F(x) for x in c.pick(DOMAINS)]
+        c.fin[f] = [F(x) for x in (c.pick(BIG_DOMAINS) if big else c.pick(DOMAINS))]
     c.num = NUMERIC_NAMES[:nn]
     c.lincyc = nn >= 2 and c.b(knobs["lincyc"])
     if not c.lincyc and c.b(0.35):
